@@ -4,7 +4,7 @@ from ..core import where
 from ..ir import AnalysisBroken
 from .C16 import check_min_accumulator
 
-UNITS = ['src/kernel/resource/models/network_cm02.cpp', 'src/kernel/resource/models/cpu_cas01.cpp']
+UNITS = ['src/kernel/resource/models/network_cm02.cpp', 'src/kernel/resource/models/cpu_cas01.cpp', 'src/kernel/resource/NetworkModel.cpp']
 M = 'simgrid::kernel::resource::NetworkCm02Model'
 EXPLANATION = ('In NetworkCm02Model::comm_action_set_bounds the bandwidth bound is the minimum get_bandwidth() over the non-WIFI links of the route '
                '(extremum coherence with the -1 sentinel) and then the minimum with the user rate when one is given; the latency saved in '
@@ -107,6 +107,28 @@ def run_more(ctx, P, A, sb, sv_):
              'back route with weight 0.05, and only there', 2)
     ec = P.fn(M + '::comm_action_expand_constraints')
     v3 = A.view(ec)
+
+    def is_cross(a):
+        """a test of network/crosstraffic: the flag itself, or a member that is only ever written from it (when it may be copied is R8)"""
+        if 'cfg_crosstraffic' in repr(a):
+            return True
+        if a[0] == 'truthy' and a[1][0] == 'var' and a[1][1] == 'local':
+            ds = [e for eid in range(len(ec['elems'])) for e in v3.events_of(eid) if e.kind == 'assign' and e.lhs == a[1]]
+            return len(ds) == 1 and 'cfg_crosstraffic' in repr(ds[0].rhs)
+        if a[0] == 'truthy' and a[1][0] == 'field' and a[1][1] == ('this',):
+            ws = []
+            for f in P.fns.values():
+                if not f.get('elems'):
+                    continue
+                for el in f['elems']:
+                    for n in ex.walk(el['x']):
+                        if n.get('k') == 'CtorInit' and (n.get('d') or {}).get('n') == a[1][2]:
+                            ws.append('cfg_crosstraffic' in repr(ex.Norm(f)(n)))
+            for u in lib.field_uses(P, a[1][2]):
+                if u.kind == 'write' and u.op != 'init':
+                    ws.append(False)
+            return bool(ws) and all(ws)
+        return False
     route, back = lib.parm(ec, 'route'), lib.parm(ec, 'back_route')
     found = {}
     for h in v3.loop_heads():
@@ -126,7 +148,7 @@ def run_more(ctx, P, A, sb, sv_):
                         IN, tgt, _ = lib.dominating_facts(A, ec, ec['elems'][eid]['x'], with_lines=True, with_preds=True)
                         facts = IN.get(tgt, ())
                         wifi = [t_ for a, t_, l_ in facts if a[0] == 'bin' and a[1] == '==' and 'WIFI' in repr(a) and 'get_sharing_policy' in repr(a)]
-                        cross = [t_ for a, t_, l_ in facts if 'cfg_crosstraffic' in repr(a)]
+                        cross = [t_ for a, t_, l_ in facts if is_cross(a)]
                         w = strip(e.args[2])
                         found[('route' if r == route else 'back_route' if r == back else ex.pretty(r))] = (w[1] if w[0] in ('int', 'float') else ex.pretty(w), tuple(wifi), tuple(cross), e.line)
     fr, fb = found.get('route'), found.get('back_route')
@@ -180,6 +202,79 @@ def run_more(ctx, P, A, sb, sv_):
                     ctx.check(smaller and positive, 'R7', 'execution_start: the user bound replaces cores x speed only when positive and smaller', where(g, e.line),
                               'facts: %s' % sorted(('%s%s' % ('' if t_ else '!', ex.pretty(a))) for a, t_, l_ in facts if ub in list(ex.subterms(a))), key='R7|execution_start|user bound')
     ctx.require(nnew >= 2, 'R7', 'creations of CpuCas01Action not found (%d)' % nnew)
+
+    # ---- R8 the model parameters are read when a communication is set up, not when the model is built ------------------------------------------------
+    ctx.rule('R8', 'the options whose per-model defaults the network model registrations set (set_default in the registration lambdas of network_cm02.cpp, several of '
+             'them after the model object is built) are never read by the constructors that run while the model is built (the model classes, their bases, the objects they create): '
+             'a copy taken there holds the global default, not the default of the model', 3)
+    from .. import cg
+    late = {}
+    built = set()
+    for f in P.fns.values():
+        if not f['file'].endswith('network_cm02.cpp') or '<lambda' not in f['q'] or not f.get('elems'):
+            continue
+        for el in f['elems']:
+            for n in ex.walk(el['x']):
+                if n.get('k') != 'Call':
+                    continue
+                q = (n.get('c') or {}).get('q', '')
+                if q.startswith('simgrid::config::set_default'):
+                    a0 = ex.expand(f, n['a'][0]) if n.get('a') else None
+                    strs = [m.get('v') for m in ex.walk(a0)] if a0 is not None else []
+                    strs = [x for x in strs if isinstance(x, str) and '/' in x]
+                    if strs:
+                        late.setdefault(strs[0], where(f, n.get('l')))
+                if q == 'std::make_shared' or q.startswith('std::make_shared<'):
+                    ty = f.tstr(n)
+                    if ty.startswith('std::shared_ptr<') and ty.endswith('>'):
+                        built.add(ty[len('std::shared_ptr<'):-1])
+    ctx.require(len(late) >= 3 and len(built) >= 1, 'R8', 'registrations not recognised: %d option(s) with a per-model default, %d model class(es) built' % (len(late), len(built)))
+    flags = {}
+    for gq, g in P.globals.items():
+        init = g.get('init') or {}
+        if (init.get('c') or {}).get('cls') == 'simgrid::config::Flag' and init.get('a'):
+            nm = init['a'][0].get('v')
+            if nm in late:
+                flags[gq] = nm
+    G = cg.CallGraph(P)
+    start = set(k for k, q in G.qof.items() if any(q == b + '::' + b.rsplit('::', 1)[-1] for b in built))
+    ctx.require(bool(start), 'R8', 'constructors of %s not found' % sorted(built))
+    seen = set(start)
+    work = list(start)
+    while work:
+        x = work.pop()
+        for y in G.out.get(x, ()):
+            if y not in seen and y in P.fns and P.fns[y]['q'].startswith('simgrid::kernel::resource::'):
+                seen.add(y)
+                work.append(y)
+    nread = 0
+
+    def is_ctor(q):
+        parts = q.split('::')
+        return len(parts) >= 2 and parts[-1] == parts[-2]
+    # only what runs *because* an object is being built: the constructors reached (shared member functions such as set_latency are also reached from
+    # the constructor, but they read the options for the actions of a live simulation, of which there are none yet)
+    seen = set(k for k in seen if is_ctor(P.fns[k]['q']))
+    for k in sorted(seen):
+        f = P.fns.get(k)
+        if f is None or not f.get('elems'):
+            continue
+        for el in f['elems']:
+            for n in ex.walk(el['x']):
+                opt = None
+                if n.get('k') in ('Ref', 'Mem') and (n.get('d') or {}).get('n') in flags:
+                    opt = flags[n['d']['n']]
+                elif n.get('k') == 'Call' and (n.get('c') or {}).get('q', '').startswith(('simgrid::config::get_value', 'simgrid::config::is_default')):
+                    strs = [m.get('v') for a in (n.get('a') or ()) for m in ex.walk(ex.expand(f, a)) if isinstance(m.get('v'), str)]
+                    opt = next((x for x in strs if x in late), None)
+                if opt is not None:
+                    nread += 1
+                    ctx.violation('R8', '%s reads %s while the model is being built' % (f['q'].replace('simgrid::kernel::resource::', ''), opt), where(f, n.get('l') or el.get('l')),
+                                  'the registration sets the default of %s at %s, possibly after this read: the model keeps the global default (e.g. cross-traffic on for the raw model)' % (opt, late[opt]),
+                                  key='R8|%s|reads %s' % (f['q'].rsplit('::', 1)[-1], opt))
+    ctx.holds('R8', 'construction of %s (%d function(s) reached) reads none of %s' % (', '.join(sorted(b.rsplit('::', 1)[-1] for b in built)), len(seen), sorted(late)), '', '%d flag object(s): %s' % (len(flags), sorted(x.rsplit('::', 1)[-1] for x in flags))) if not nread else None
+    for opt, w_ in sorted(late.items()):
+        ctx.holds('R8', 'per-model default of %s' % opt, w_, 'set by a registration')
 
 
 def run(ctx):
